@@ -200,6 +200,5 @@ PROP = {
                     "Submessage::write_to."),
     "technique": "Kani/CBMC bounded symbolic model checking of the speedy Writable/Readable impls and hand-written decoders over a grid of concrete shapes with symbolic contents",
     "level_text": "SAT-solver verdict over all field values / bitmap words / payload and parameter bytes inside the stated shape grid.",
-    "level_note": ("Trusted: Kani/CBMC/CaDiCaL, container shim, Vec stubs. OPEN FINDING: c14_datafrag_write_*_q1/_q2 fail on the unchanged tree "
-                   "(DataFrag::write_to writes the Option tag byte 0x01 before the inline QoS)."),
+    "level_note": "Trusted: Kani/CBMC/CaDiCaL, container shim, the Vec / speedy / Submessage-storage stand-ins listed under assumptions (Kani only; native replay runs the originals). The DataFrag inline-QoS tag-byte defect these harnesses found was repaired in /repo (fix: 7c47c21); c14_datafrag_write_*_q1/_q2 now pass and stay as regression checks.",
 }
